@@ -1,22 +1,25 @@
 #!/bin/sh
-# Development-time sensitivity sweep: applies every seeded change to /repo in turn, runs the quick check of its
-# property, records caught/missed with the first signature, and restores /repo. Never registered as a check.
-cd /verif || exit 2
-out=/verif/seeded/RESULTS.txt
+# Development-time sensitivity sweep: applies every seeded change in turn to the tree named by VERIF_REPO (default
+# /repo; a git checkout), runs the quick check of its property, records caught/missed with the first signature, and
+# restores the tree. Never registered as a check. Meant to be run from a snapshot:
+#   vp run --with-repo --timeout 6h -- sh -c 'VERIF_REPO=$VP_RUN_REPO tools/seeded_all.sh'
+root=$(cd "$(dirname "$0")/.." && pwd)
+repo=${VERIF_REPO:-/repo}
+cd $root || exit 2
+out=$root/seeded/RESULTS.txt
 : > $out.tmp
 for d in seeded/*/; do
   id=$(basename $d); prop=$(echo $id | cut -c1-3)
-  [ -f $d/patch.diff ] || continue
-  cd /repo; git diff --quiet || { echo "repo dirty"; exit 2; }
-  if ! git apply $OLDPWD/$d/patch.diff 2>/dev/null; then echo "$id NOAPPLY" >> $out.tmp; cd /verif; continue; fi
-  cd /verif
+  [ -f $root/$d/patch.diff ] || continue
+  git -C $repo diff --quiet || { echo "repo dirty"; exit 2; }
+  if ! git -C $repo apply $root/$d/patch.diff 2>/dev/null; then echo "$id NOAPPLY" >> $out.tmp; continue; fi
   extra=""; [ "$prop" = "C18" ] && extra="--runs 240"
-  res=$(VERIF_EVIDENCE_DIR=/tmp/hyverif-evidence-scratch ./vcheck $prop --selfcheck 0 $extra 2>&1 | grep -v "^KNOWN")
+  res=$(VERIF_REPO=$repo VERIF_EVIDENCE_DIR=/tmp/hyverif-evidence-scratch ./vcheck $prop --selfcheck 0 $extra 2>&1 | grep -v "^KNOWN")
   rc=$(echo "$res" | grep -o "rc=[0-9]*" | tail -1)
   sig=$(echo "$res" | grep -o "signature=[^ ]*" | head -1)
   nv=$(echo "$res" | grep -o "violations=[0-9]*" | tail -1)
   harn=$(echo "$res" | grep -c "HARNESS-ERROR")
   echo "$id $rc $nv $sig harness_errors=$harn" >> $out.tmp
-  cd /repo && git checkout -- . ; cd /verif
+  git -C $repo checkout -- .
 done
 mv $out.tmp $out; cat $out
